@@ -367,6 +367,11 @@ Lemma skipn_app_l {A} (a b : list A) : skipn (length a) (a ++ b) = b.
 Proof. rewrite skipn_app, skipn_all, Nat.sub_diag. reflexivity. Qed.
 Lemma firstn_app_l {A} (a b : list A) : firstn (length a) (a ++ b) = a.
 Proof. rewrite firstn_app, firstn_all, Nat.sub_diag, firstn_O, app_nil_r. reflexivity. Qed.
+Lemma firstn_add (l : bytes) : forall p k, (p <= length l)%nat -> firstn (p + k) l = firstn p l ++ firstn k (skipn p l).
+Proof.
+  induction l as [|a l IH]; intros [|p] k H; simpl in *; try reflexivity; try lia.
+  f_equal. apply IH. lia.
+Qed.
 Lemma to_nat_zlen (a : bytes) : Z.to_nat (zlen a) = length a.
 Proof. unfold zlen. lia. Qed.
 Lemma skipn_firstn_mid (l a b c : bytes) p q :
@@ -465,6 +470,26 @@ Inductive Lossless : bytes -> Z -> bytes -> list Stmt -> Prop :=
     Gap d g d' -> RawOf d' raw st -> raw <> [] -> Pos st = off + zlen g ->
     Lossless d' (off + zlen g + zlen raw) rest ss ->
     Lossless d off (g ++ raw ++ rest) (st :: ss).
+
+(** the same for every option set: with [GoCommand] a statement may be followed by a segment [go]
+    (the consumed GO batch separator, [[]] without the option) and its [Pos] is too large by
+    exactly the length of that segment ([emit]: [Pos = total - len(text)], [total] already counts
+    the separator). *)
+Inductive LosslessG : bytes -> Z -> bytes -> list Stmt -> Prop :=
+| LG_end d off g d' : Gap d g d' -> LosslessG d off g []
+| LG_stmt d off g d' raw go rest st ss :
+    Gap d g d' -> RawOf d' raw st -> raw ++ go <> [] -> (go = [] \/ GoCommand o = true) ->
+    Pos st = off + zlen g + zlen go ->
+    LosslessG d' (off + zlen g + zlen raw + zlen go) rest ss ->
+    LosslessG d off (g ++ raw ++ go ++ rest) (st :: ss).
+
+Lemma LosslessG_noGo d off inp ss : GoCommand o = false -> LosslessG d off inp ss -> Lossless d off inp ss.
+Proof.
+  intros noGo H. induction H as [d off g d' HG|d off g d' raw go rest st ss HG HR Hne Hgo HP HL IH].
+  - eapply LL_end; exact HG.
+  - destruct Hgo as [->|Hgo]; [|congruence]. rewrite app_nil_r in Hne. change (zlen []) with 0 in *.
+    rewrite Z.add_0_r in *. simpl. eapply LL_stmt; eauto.
+Qed.
 
 (** ** comment *)
 Lemma comment_cases s left right s' :
@@ -709,6 +734,187 @@ Proof.
   destruct l as [|x [|y l']]; cbv [skipn]; intros H1 H2; inversion H1; inversion H2; reflexivity.
 Qed.
 
+Ltac inv_bind_as H a Ha := apply bind_ok in H; destruct H as (a & Ha & H).
+
+(** ** the GO batch separator (GoCommand) *)
+Lemma skipGoCount_adv f s s' : skipGoCount f s = Ok s' -> adv s s'.
+Proof.
+  unfold skipGoCount. intros H. inv_bind_as H r Hr.
+  destruct (rune_is r 32) eqn:Er; [|inversion H; apply adv_refl].
+  destruct r as [c|]; [|discriminate]. simpl in Er. apply N.eqb_eq in Er. subst c.
+  destruct (pick_32 s) as [Hp0 _]; [rewrite Hr; reflexivity|].
+  cbv zeta in H. inv_bind_as H r0 Hr0. rewrite Hr in Hr0. inversion Hr0; subst r0. clear Hr0.
+  inv_bind_as H s1 Hs1.
+  destruct (to_eol_loop_spec _ _ _ _ Hs1 Hp0 ltac:(exists 32%N; split; [reflexivity|discriminate]))
+    as (seg & _ & _ & _ & S4).
+  inv_bind_as H raw Hraw. destruct (atoi_ok _); [|discriminate]. inversion H; subst. exact S4.
+Qed.
+
+Lemma split3 (l : bytes) k p : (k <= p)%nat -> l = firstn k l ++ skipn k (firstn p l) ++ skipn p l.
+Proof.
+  intros H. rewrite <- (firstn_skipn p l) at 1. rewrite <- (firstn_skipn k (firstn p l)) at 1.
+  rewrite firstn_firstn, Nat.min_l by lia. rewrite <- app_assoc. reflexivity.
+Qed.
+
+(** * Comments: which comment segments a statement carries (round 5)
+
+    [SegC seg rest cs cs']: one segment that [stmt] strips off the front of the input between two
+    statements, [rest] being everything after it, and what it does to the comment group
+    ([Scanner.comments]): white space keeps it; a terminated comment is appended, unless the text
+    after it starts with an empty line (two newlines after a block comment, one after a line
+    comment, whose own newline is part of it) - then the group is *emptied*; a DELIMITER command
+    line empties it ([emit]). [GapCs g rest cs cs'] is a sequence of such segments. *)
+Section CommentSpec.
+Variable o : opts.
+
+Inductive SegC : bytes -> bytes -> list bytes -> list bytes -> Prop :=
+| SC_space sp rest cs : Spaces sp -> SegC sp rest cs cs
+| SC_comment left body right sp rest cs :
+    index_of (body ++ right) right = Some (length body) ->
+    ((left = [45%N; 45%N] /\ right = NL) \/ (left = [47%N; 42%N] /\ right = [42%N; 47%N])
+     \/ (HashComments o = true /\ left = [35%N] /\ right = NL)) ->
+    Spaces sp -> starts_space rest = false ->
+    SegC ((left ++ body ++ right) ++ sp) rest cs
+         (if has_prefix (sp ++ rest) NLNL || (bytes_eqb right NL && has_prefix (sp ++ rest) NL)
+          then [] else cs ++ [left ++ body ++ right])
+| SC_delim kw arg nl sp rest cs :
+    length kw = 9%nat -> has_prefix_ci kw W_DELIMITER = true ->
+    (exists t, arg = 32%N :: t) -> ~ In 10%N arg -> (nl = NL \/ (nl = [] /\ sp ++ rest = [])) ->
+    Spaces sp -> SegC (kw ++ arg ++ nl ++ sp) rest cs [].
+
+Inductive GapCs : bytes -> bytes -> list bytes -> list bytes -> Prop :=
+| GCs_nil rest cs : GapCs [] rest cs cs
+| GCs_cons seg g rest cs cs1 cs2 :
+    SegC seg (g ++ rest) cs cs1 -> GapCs g rest cs1 cs2 -> GapCs (seg ++ g) rest cs cs2.
+
+Lemma GapCs_snoc g : forall seg rest cs cs1 cs2,
+  GapCs g (seg ++ rest) cs cs1 -> SegC seg rest cs1 cs2 -> GapCs (g ++ seg) rest cs cs2.
+Proof.
+  intros seg rest cs cs1 cs2 H. remember (seg ++ rest) as r eqn:Er. revert Er.
+  induction H as [r cs|sg g r cs ca cb HS HG IH]; intros Er HS2; subst r.
+  - simpl. rewrite <- (app_nil_r seg). eapply GCs_cons; [rewrite app_nil_l; exact HS2|apply GCs_nil].
+  - rewrite <- app_assoc. eapply GCs_cons; [rewrite <- app_assoc; exact HS|]. apply IH; auto.
+Qed.
+End CommentSpec.
+
+Lemma next_cm s r s' : next s = Ok (r, s') -> comments s' = comments s.
+Proof.
+  destruct r as [r|]; intros H.
+  - apply next_some in H as (rest & w & _ & _ & _ & -> & _). reflexivity.
+  - apply next_none in H as [-> _]. reflexivity.
+Qed.
+Lemma skipQuote_loop_cm f : forall s p0 q e s', skipQuote_loop f s p0 q e = Ok s' -> comments s' = comments s.
+Proof.
+  induction f as [|f IH]; intros s p0 q e s' H; simpl in H; [discriminate|].
+  inv_bind H. destruct a as [r s1]. pose proof (next_cm _ _ _ Ha) as C1.
+  destruct r as [c|].
+  - destruct (N.eqb c 92 && e).
+    + inv_bind H. destruct a as [r2 s2]. simpl in H. rewrite (IH _ _ _ _ _ H), (next_cm _ _ _ Ha0). exact C1.
+    + destruct (N.eqb c q); [inversion H; subst; exact C1|]. rewrite (IH _ _ _ _ _ H). exact C1.
+  - unfold fail in H. inv_bind H. discriminate.
+Qed.
+Lemma skipQuote_cm o f s q s' : skipQuote o f s q = Ok s' -> comments s' = comments s.
+Proof. unfold skipQuote. intros H. inv_bind H. eapply skipQuote_loop_cm; exact H. Qed.
+Lemma skipDollarQuote_loop_cm f : forall s m s', skipDollarQuote_loop f s m = Ok s' -> comments s' = comments s.
+Proof.
+  induction f as [|f IH]; intros s m s' H; simpl in H; [discriminate|].
+  inv_bind H. destruct a as [r s1]. pose proof (next_cm _ _ _ Ha) as C1.
+  destruct r as [c|].
+  - destruct (N.eqb c 36).
+    + inv_bind H. destruct (has_prefix a m).
+      * inversion H; subst. exact C1.
+      * rewrite (IH _ _ _ H). exact C1.
+    + rewrite (IH _ _ _ H). exact C1.
+  - destruct (delim s1); [unfold fail in H; inv_bind H; discriminate|]. inversion H; subst; exact C1.
+Qed.
+Lemma skipDollarQuote_cm f s s' : skipDollarQuote f s = Ok s' -> comments s' = comments s.
+Proof.
+  unfold skipDollarQuote. intros H. inv_bind H.
+  destruct (re_dollar_quote a) as [n|]; [|unfold fail in H; inv_bind H; discriminate].
+  apply skipDollarQuote_loop_cm in H. exact H.
+Qed.
+Lemma to_eol_loop_cm f : forall s r s', to_eol_loop f s r = Ok s' -> comments s' = comments s.
+Proof.
+  induction f as [|f IH]; intros s r s' H; simpl in H; [discriminate|].
+  destruct r as [c|]; [|inversion H; reflexivity]. destruct (N.eqb c 10); [inversion H; reflexivity|].
+  inv_bind H. destruct a as [r1 s1]. simpl in H. rewrite (IH _ _ _ H). eapply next_cm; exact Ha.
+Qed.
+Lemma skipGoCount_cm f s s' : skipGoCount f s = Ok s' -> comments s' = comments s.
+Proof.
+  unfold skipGoCount. intros H. inv_bind H. destruct (rune_is a 32); [|inversion H; reflexivity].
+  cbv zeta in H. inv_bind H. inv_bind H. inv_bind H. destruct (atoi_ok _); [|discriminate]. inversion H; subst.
+  eapply to_eol_loop_cm; eauto.
+Qed.
+
+Section IterCm.
+Variable o : opts.
+Variable nested : scanner -> res (scanner * option Stmt).
+
+Lemma atomic_loop_cm f : forall s body r, atomic_loop nested f s body = Ok r -> comments (fst r) = comments s.
+Proof.
+  induction f as [|f IH]; intros s body r H; simpl in H; [discriminate|].
+  destruct (nested body) as [[body' [st|]]|e| |]; try discriminate.
+  - destruct (re_end (Text st)); [inversion H; subst; reflexivity|eapply IH; exact H].
+  - apply nfail_ok in H. rewrite H. reflexivity.
+  - apply nfail_ok in H. rewrite H. reflexivity.
+Qed.
+Lemma begin_loop_cm f : forall s body r, begin_loop o nested f s body = Ok r -> comments (fst r) = comments s.
+Proof.
+  induction f as [|f IH]; intros s body r H; simpl in H; [discriminate|].
+  destruct (nested body) as [[body' [st|]]|e| |]; try discriminate.
+  - destruct (re_end (Text st)).
+    + destruct (_ || _); [inversion H; subst; reflexivity|eapply IH; exact H].
+    + destruct (_ && _); [inversion H; subst; reflexivity|eapply IH; exact H].
+  - apply nfail_ok in H. rewrite H. reflexivity.
+  - apply nfail_ok in H. rewrite H. reflexivity.
+Qed.
+Lemma trycatch_loop_cm f : forall s body r, trycatch_loop nested f s body = Ok r -> comments (fst r) = comments s.
+Proof.
+  induction f as [|f IH]; intros s body r H; simpl in H; [discriminate|].
+  destruct (nested body) as [[body' [st|]]|e| |]; try discriminate.
+  - destruct (re_end_catch (Text st)) as [n|]; [|eapply IH; exact H].
+    inversion H; subst. simpl. destruct (has_suffix _ _); reflexivity.
+  - apply nfail_ok in H. rewrite H. reflexivity.
+  - apply nfail_ok in H. rewrite H. reflexivity.
+Qed.
+Lemma skipBeginAtomic_cm f s r : skipBeginAtomic nested f s = Ok r -> comments (fst r) = comments s.
+Proof.
+  unfold skipBeginAtomic. intros H. inv_bind H.
+  destruct (re_begin_atomic a) as [n|]; [|apply nfail_ok in H; rewrite H; reflexivity].
+  inv_bind H. destruct (init (new_scanner false) a0) as [body|e| |]; try discriminate.
+  - apply atomic_loop_cm in H. exact H.
+  - inversion H; subst; reflexivity.
+Qed.
+Lemma skipBeginTryCatch_cm f s r : skipBeginTryCatch nested f s = Ok r -> comments (fst r) = comments s.
+Proof.
+  unfold skipBeginTryCatch. intros H. inv_bind H.
+  destruct (re_begin_try a) as [n|]; [|apply nfail_ok in H; rewrite H; reflexivity].
+  inv_bind H. destruct (init (new_scanner false) a0) as [body|e| |]; try discriminate.
+  - apply trycatch_loop_cm in H. exact H.
+  - inversion H; subst; reflexivity.
+Qed.
+Lemma skipBegin_cm f s r : skipBegin o nested f s = Ok r -> comments (fst r) = comments s.
+Proof.
+  unfold skipBegin. intros H. inv_bind H.
+  destruct (re_begin a) as [n|]; [|apply nfail_ok in H; rewrite H; reflexivity].
+  inv_bind H. destruct (init (new_scanner (BeginEndTerminator o)) a0) as [body|e| |]; try discriminate.
+  - apply begin_loop_cm in H. exact H.
+  - inversion H; subst; reflexivity.
+Qed.
+Lemma after_block_cm r depth opos step s0 :
+  after_block r depth opos = Ok step -> (forall x, r = Ok x -> comments (fst x) = comments s0) ->
+  match step with
+  | Continue s1 _ _ => comments s1 = comments s0
+  | Break s1 _ => comments s1 = comments s0
+  | RetEOF _ => False
+  end.
+Proof.
+  unfold after_block. intros H Hr. inv_bind H. destruct a as [s1 [e|]].
+  - inversion H; subst. apply (Hr _ eq_refl).
+  - inv_bind H. inversion H; subst. apply (Hr _ eq_refl).
+Qed.
+End IterCm.
+
 (** * One iteration of [stmt]'s loop *)
 Section IterSpec.
 Variable o : opts.
@@ -716,7 +922,6 @@ Variable nested : scanner -> res (scanner * option Stmt).
 Hypothesis nested_mono : forall b b' r, pos b = 0 -> delim b <> [] -> nested b = Ok (b', r) ->
   total b <= total b' /\ pos b' = 0 /\ delim b' <> [] /\
   (forall st, r = Some st -> total b + zlen (Text st) <= total b').
-Hypothesis noGo : GoCommand o = false.
 
 (** a leading gap segment was cut off the input (continuation-passing form: any gap that
     follows extends to a gap from the old state). *)
@@ -800,7 +1005,8 @@ Lemma stmt_iter_spec f s0 depth opos step :
   | Continue s1 _ _ => (adv s0 s1 /\ pos s0 < pos s1) \/
                        (Strip s0 s1 /\ pos s0 = 0 /\ zlen (input s1) < zlen (input s0))
   | Break s1 text => adv s0 s1 /\ 0 < pos s1 /\
-      (text = firstn (Z.to_nat (pos s1)) (input s1) \/ (text = input s1 /\ zlen (input s1) <= pos s1))
+      (text = firstn (Z.to_nat (pos s1)) (input s1) \/ (text = input s1 /\ zlen (input s1) <= pos s1) \/
+       (GoCommand o = true /\ exists k, 0 <= k <= pos s1 /\ text = firstn (Z.to_nat k) (input s1)))
   | RetEOF s1 => adv s0 s1 /\ zlen (input s1) <= pos s1 <= 0
   end.
 Proof.
@@ -809,7 +1015,7 @@ Proof.
   2:{ apply next_none in Ha as [-> Hlen].
       destruct (0 <? depth); [apply fail_not_ok in H; contradiction|].
       destruct (0 <? pos s0) eqn:E; bnorm; inversion H; subst.
-      - split; [apply adv_refl|split; [lia|right; auto]].
+      - split; [apply adv_refl|split; [lia|right; left; auto]].
       - split; [apply adv_refl|lia]. }
   apply next_some in Ha as (rest & w & H1 & H2 & H3 & Hs & H4).
   destruct (decode_rune_spec _ _ _ H3 H2) as (Hw & Hascii & _).
@@ -832,7 +1038,26 @@ Proof.
     inv_bind Ha. injection Ha as Ha. bnorm.
     match goal with HH : (length _ =? 9)%nat = true |- _ => apply Nat.eqb_eq in HH end.
     eapply delim_strip; eauto. lia. }
-  clear Ha. rewrite noGo in H. simpl in H.
+  clear Ha. inv_bind_as H go1 Hgo1. inv_bind_as H go2 Hgo2. destruct go2.
+  { assert (GoCommand o = true) as HG.
+    { destruct (GoCommand o); [reflexivity|]. simpl in Hgo1. injection Hgo1 as <-. simpl in Hgo2. discriminate. }
+    inv_bind_as H s1 Hs1. inv_bind_as H text Ht. inv_bind_as H rs2 Hrs2. inv_bind_as H s3 Hs3. injection H as <-.
+    assert (adv s s1) as A1.
+    { destruct go1; [|injection Hs1 as <-; apply adv_refl].
+      inv_bind_as Hs1 rs1 Hrs1. injection Hs1 as <-. destruct rs1 as [r1 s1']. simpl. eapply next_adv; exact Hrs1. }
+    destruct rs2 as [r2 s2]. simpl in Hs3. pose proof (next_adv _ _ _ Hrs2) as A2.
+    pose proof (skipGoCount_adv _ _ _ Hs3) as A3.
+    assert (adv s s3) as A13 by (eapply adv_trans; [exact A1|eapply adv_trans; eauto]).
+    assert (adv s3 (skipSpaces s3)) as A4.
+    { apply skipSpaces_adv. destruct A13 as (E & _). rewrite E, His. exact Hns. }
+    apply slice_to_ok in Ht as [Hb ->].
+    destruct A1 as (a11 & a12 & a13 & a14). destruct A2 as (a21 & a22 & a23 & a24).
+    destruct A3 as (a31 & a32 & a33 & a34). destruct A4 as (a41 & a42 & a43 & a44).
+    destruct A0 as (a01 & a02 & a03 & a04).
+    split; [unfold adv; repeat split; try congruence; lia|]. split; [lia|].
+    right; right. split; [exact HG|]. exists (pos s1 - 1). split; [lia|].
+    f_equal. congruence. }
+  clear Hgo1 Hgo2 go1.
   inv_bind H. rename a into isDelim. destruct isDelim.
   { inv_bind H. inversion H; subst; clear H. apply slice_to_ok in Ha0 as [Hb ->].
     assert (1 <= zlen (delim s0)) as Hdl.
@@ -917,25 +1142,28 @@ End IterSpec.
 Lemma starts_space_trim_suffix t d : starts_space t = false -> starts_space (trim_suffix t d) = false.
 Proof. unfold trim_suffix. destruct (has_suffix t d); [apply starts_space_firstn|auto]. Qed.
 
-Lemma emit_spec o s1 text st s' :
-  emit o s1 text = Ok (st, s') -> text = firstn (Z.to_nat (pos s1)) (input s1) ->
+Lemma emit_spec o s1 text k st s' :
+  emit o s1 text = Ok (st, s') -> 0 <= k <= pos s1 -> text = firstn (Z.to_nat k) (input s1) ->
   starts_space (input s1) = false ->
-  input s1 = text ++ input s' /\ RawOf (delim s1) text st /\ Pos st = total s1 - zlen text /\
-  pos s' = 0 /\ delim s' = delim s1 /\ total s' = total s1 /\ zlen text = pos s1.
+  exists go, input s1 = text ++ go ++ input s' /\ RawOf (delim s1) text st /\ Pos st = total s1 - zlen text /\
+  pos s' = 0 /\ delim s' = delim s1 /\ total s' = total s1 /\ zlen text = k /\ zlen go = pos s1 - k.
 Proof.
-  unfold emit. intros H Ht Hns. inv_bind H. apply slice_from_ok in Ha as [Hb ->].
+  unfold emit. intros H Hk Ht Hns. inv_bind H. apply slice_from_ok in Ha as [Hb ->].
   injection H as <- <-. simpl.
   assert (starts_space text = false) as Hns2 by (rewrite Ht; apply starts_space_firstn; exact Hns).
-  repeat split; auto.
-  - rewrite Ht. symmetry; apply firstn_skipn.
-  - set (t := if OmitDelimiter o || negb (bytes_eqb (delim s1) delimiter) then trim_suffix text (delim s1) else text).
+  exists (skipn (Z.to_nat k) (firstn (Z.to_nat (pos s1)) (input s1))).
+  split; [rewrite Ht; apply split3; lia|].
+  split.
+  { set (t := if OmitDelimiter o || negb (bytes_eqb (delim s1) delimiter) then trim_suffix text (delim s1) else text).
     assert (exists dl, text = t ++ dl /\ (dl = [] \/ dl = delim s1)) as (dl & Hdl & Hdl2).
     { unfold t. destruct (_ || _); [apply trim_suffix_app|exists []; rewrite app_nil_r; auto]. }
     assert (starts_space t = false) as Hns3.
     { unfold t. destruct (_ || _); [apply starts_space_trim_suffix|]; exact Hns2. }
     destruct (trim_space_decomp _ Hns3) as (sp & Hsp & Hsp2).
-    exists sp, dl. simpl. split; [|auto]. rewrite Hdl at 1. rewrite Hsp at 1. rewrite <- app_assoc. reflexivity.
-  - rewrite Ht. apply zlen_firstn. lia.
+    exists sp, dl. simpl. split; [|auto]. rewrite Hdl at 1. rewrite Hsp at 1. rewrite <- app_assoc. reflexivity. }
+  split; [reflexivity|]. split; [reflexivity|]. split; [reflexivity|]. split; [reflexivity|].
+  split; [rewrite Ht; apply zlen_firstn; lia|].
+  unfold zlen in *. rewrite skipn_length, firstn_length. lia.
 Qed.
 
 Section LoopSpec.
@@ -944,7 +1172,6 @@ Variable nested : scanner -> res (scanner * option Stmt).
 Hypothesis nested_mono : forall b b' r, pos b = 0 -> delim b <> [] -> nested b = Ok (b', r) ->
   total b <= total b' /\ pos b' = 0 /\ delim b' <> [] /\
   (forall st, r = Some st -> total b + zlen (Text st) <= total b').
-Hypothesis noGo : GoCommand o = false.
 Variables (I0 D0 : bytes) (T0 : Z).
 
 Definition LI (s : scanner) : Prop :=
@@ -956,8 +1183,9 @@ Definition StmtResult (s' : scanner) (r : option Stmt) : Prop :=
   pos s' = 0 /\ delim s' <> [] /\ total s' + zlen (input s') = T0 /\
   match r with
   | None => input s' = [] /\ Gap o D0 I0 (delim s')
-  | Some st => exists g raw, I0 = g ++ raw ++ input s' /\ Gap o D0 g (delim s') /\
-                             RawOf (delim s') raw st /\ raw <> [] /\ Pos st = T0 - zlen I0 + zlen g
+  | Some st => exists g raw go, I0 = g ++ raw ++ go ++ input s' /\ Gap o D0 g (delim s') /\
+                             RawOf (delim s') raw st /\ raw ++ go <> [] /\
+                             Pos st = T0 - zlen I0 + zlen g + zlen go /\ (go = [] \/ GoCommand o = true)
   end.
 
 Lemma LI_adv s s1 : LI s -> adv s s1 -> LI s1.
@@ -977,22 +1205,30 @@ Lemma stmt_loop_spec lf : forall s d op s' r,
 Proof.
   induction lf as [|lf IH]; intros s d op s' r H L; simpl in H; [discriminate|].
   inv_bind H. destruct L as (L1 & L2 & L3 & L4 & L5).
-  pose proof (stmt_iter_spec o nested nested_mono noGo _ _ _ _ _ Ha L1 L2) as Hit.
+  pose proof (stmt_iter_spec o nested nested_mono _ _ _ _ _ Ha L1 L2) as Hit.
   assert (LI s) as L by (unfold LI; auto).
   destruct a as [s1 d1 o1|s1 text|s1].
   - eapply IH; [exact H|]. destruct Hit as [[A _]|[S _]]; [eapply LI_adv|eapply LI_strip]; eauto.
   - destruct Hit as (A & Hpos & Htext). inv_bind H. destruct a as [st s2]. simpl in H. injection H as <- <-.
     pose proof (LI_adv _ _ L A) as (M1 & M2 & M3 & M4 & M5).
-    assert (text = firstn (Z.to_nat (pos s1)) (input s1)) as Ht.
-    { destruct Htext as [Ht|[Ht Hlen]]; [exact Ht|]. rewrite Ht. symmetry. apply firstn_all2.
-      unfold zlen in Hlen. lia. }
-    destruct (emit_spec _ _ _ _ _ Ha0 Ht M1) as (E1 & E2 & E3 & E4 & E5 & E6 & E7).
+    assert (exists k, 0 <= k <= pos s1 /\ text = firstn (Z.to_nat k) (input s1) /\
+                      (k = pos s1 \/ GoCommand o = true)) as (k & Hk & Ht & Hgo).
+    { destruct Htext as [Ht|[[Ht Hlen]|(HG & k & Hk & Ht)]].
+      - exists (pos s1). split; [lia|]. split; [exact Ht|left; reflexivity].
+      - exists (pos s1). split; [lia|]. split; [|left; reflexivity]. rewrite Ht. symmetry. apply firstn_all2.
+        unfold zlen in Hlen. lia.
+      - exists k. auto. }
+    destruct (emit_spec _ _ _ _ _ _ Ha0 Hk Ht M1) as (go & E1 & E2 & E3 & E4 & E5 & E6 & E7 & E8).
     destruct (M5 [] (input s1) (delim s1) eq_refl (Gap_nil o _)) as (g0 & Hg0 & HG0).
-    unfold StmtResult. rewrite E5. repeat split; auto.
-    + rewrite E1, zlen_app in M4. lia.
-    + exists g0, text. rewrite <- E1. repeat split; auto.
-      * intros ->. change (zlen []) with 0 in E7. lia.
-      * rewrite Hg0, zlen_app. lia.
+    pose proof (zlen_nonneg go) as Hgo0.
+    assert (zlen (input s1) = zlen text + zlen go + zlen (input s2)) as Hlen1.
+    { rewrite E1 at 1. rewrite !zlen_app. lia. }
+    unfold StmtResult. rewrite E5. split; [exact E4|]. split; [exact M2|]. split; [lia|].
+    exists g0, text, go. rewrite <- E1. split; [exact Hg0|]. split; [exact HG0|]. split; [exact E2|].
+    split; [|split].
+    + intros Hnil. apply (f_equal zlen) in Hnil. rewrite zlen_app in Hnil. change (zlen []) with 0 in Hnil. lia.
+    + rewrite Hg0, zlen_app. lia.
+    + destruct Hgo as [Hkp|HG]; [left; apply zlen_zero; lia|right; exact HG].
   - destruct Hit as (A & Hlen). injection H as <- <-.
     pose proof (LI_adv _ _ L A) as (M1 & M2 & M3 & M4 & M5).
     assert (input s1 = []) as Hin by (apply zlen_zero; pose proof (zlen_nonneg (input s1)); lia).
@@ -1004,7 +1240,6 @@ End LoopSpec.
 
 Section StmtSpec.
 Variable o : opts.
-Hypothesis noGo : GoCommand o = false.
 
 Lemma StmtResult_mono I0 D0 T0 s' r b :
   StmtResult o I0 D0 T0 s' r -> I0 = input b -> T0 = total b + zlen (input b) ->
@@ -1012,8 +1247,8 @@ Lemma StmtResult_mono I0 D0 T0 s' r b :
   (forall st, r = Some st -> total b + zlen (Text st) <= total s').
 Proof.
   intros (R1 & R2 & R3 & R4) -> ->. destruct r as [st|].
-  - destruct R4 as (g & raw & Hin & _ & (sp & dl & Hraw & _) & _). rewrite Hin, !zlen_app in R3.
-    rewrite Hraw, !zlen_app in R3.
+  - destruct R4 as (g & raw & go & Hin & _ & (sp & dl & Hraw & _) & _). rewrite Hin, !zlen_app in R3.
+    rewrite Hraw, !zlen_app in R3. pose proof (zlen_nonneg go).
     pose proof (zlen_nonneg g). pose proof (zlen_nonneg sp). pose proof (zlen_nonneg dl). pose proof (zlen_nonneg (Text st)).
     repeat split; auto; try lia. intros st0 E. injection E as <-. lia.
   - destruct R4 as [Hin _]. rewrite Hin in R3. change (zlen []) with 0 in R3.
@@ -1024,7 +1259,7 @@ Lemma stmt_spec f : forall s s' r, stmt o f s = Ok (s', r) -> pos s = 0 -> delim
   StmtResult o (input s) (delim s) (total s + zlen (input s)) s' r.
 Proof.
   induction f as [|f IH]; intros s s' r H Hp Hd; simpl in H; [discriminate|].
-  eapply (stmt_loop_spec o (stmt o f)); [|exact noGo|exact H|].
+  eapply (stmt_loop_spec o (stmt o f)); [|exact H|].
   - intros b b' r0 Hb1 Hb2 Hb3. eapply StmtResult_mono; [eapply IH; eauto|reflexivity|reflexivity].
   - destruct (trim_left_decomp (input s)) as (sp & Hsp & Hsp2 & Hsp3).
     unfold LI, skipSpaces; simpl. repeat split; auto; try lia.
@@ -1034,20 +1269,20 @@ Proof.
 Qed.
 
 Lemma scan_loop_spec f : forall s acc ss, scan_loop o f s acc = Ok ss -> pos s = 0 -> delim s <> [] ->
-  exists ss', ss = rev acc ++ ss' /\ Lossless o (delim s) (total s) (input s) ss'.
+  exists ss', ss = rev acc ++ ss' /\ LosslessG o (delim s) (total s) (input s) ss'.
 Proof.
   induction f as [|f IH]; intros s acc ss H Hp Hd; [discriminate|].
   cbn [scan_loop] in H. inv_bind H. destruct a as [s1 r].
   pose proof (stmt_spec _ _ _ _ Ha Hp Hd) as (R1 & R2 & R3 & R4).
   destruct r as [st|].
-  - destruct R4 as (g & raw & Hin & HG & HR & Hne & HP).
+  - destruct R4 as (g & raw & go & Hin & HG & HR & Hne & HP & Hgo).
     destruct (IH _ _ _ H R1 R2) as (ss' & Hss & HL).
     exists (st :: ss'). split; [rewrite Hss; simpl; rewrite <- app_assoc; reflexivity|].
-    rewrite Hin. eapply LL_stmt; eauto; [lia|].
-    replace (total s + zlen g + zlen raw) with (total s1); [exact HL|].
+    rewrite Hin. eapply LG_stmt; [exact HG|exact HR|exact Hne|exact Hgo|lia|].
+    replace (total s + zlen g + zlen raw + zlen go) with (total s1); [exact HL|].
     rewrite Hin, !zlen_app in R3. lia.
   - destruct R4 as [Hin HG]. injection H as <-. exists []. rewrite app_nil_r. split; [reflexivity|].
-    eapply LL_end; exact HG.
+    eapply LG_end; exact HG.
 Qed.
 
 (** the [-- atlas:delimiter] header line stripped by [init] (dir.go [directive]). *)
@@ -1067,9 +1302,9 @@ Proof.
       apply (IH _ eq_refl Hin).
 Qed.
 
-Theorem Scan_lossless fuel inp ss :
+Theorem Scan_losslessG fuel inp ss :
   Scan o fuel inp = Ok ss ->
-  exists hdr d0 rest, inp = hdr ++ rest /\ Header inp hdr d0 /\ Lossless o d0 (zlen hdr) rest ss.
+  exists hdr d0 rest, inp = hdr ++ rest /\ Header inp hdr d0 /\ LosslessG o d0 (zlen hdr) rest ss.
 Proof.
   unfold Scan. intros H. inv_bind H. rename a into s. unfold init in Ha.
   destruct (directive_delimiter inp) as [dd|] eqn:Ed.
@@ -1087,6 +1322,14 @@ Proof.
   - injection Ha as <-.
     destruct (scan_loop_spec _ _ _ _ H eq_refl ltac:(simpl; discriminate)) as (ss' & -> & HL).
     exists [], delimiter, inp. split; [reflexivity|]. split; [left; auto|exact HL].
+Qed.
+
+Theorem Scan_lossless fuel inp ss :
+  GoCommand o = false -> Scan o fuel inp = Ok ss ->
+  exists hdr d0 rest, inp = hdr ++ rest /\ Header inp hdr d0 /\ Lossless o d0 (zlen hdr) rest ss.
+Proof.
+  intros noGo H. destruct (Scan_losslessG _ _ _ H) as (hdr & d0 & rest & H1 & H2 & H3).
+  exists hdr, d0, rest. split; [exact H1|]. split; [exact H2|]. apply LosslessG_noGo; assumption.
 Qed.
 End StmtSpec.
 
@@ -1164,6 +1407,45 @@ Proof.
   unfold TextAt, Line. intros H. apply slice_ok in H as (H1 & H2 & _).
   pose proof (zlen_nonneg (Text st)).
   unfold slice_to. destruct (Pos st <? 0) eqn:E1; [bnorm; lia|]. destruct (zlen inp <? Pos st) eqn:E2; [bnorm; lia|].
+  simpl. unfold line_of. rewrite line_walk_count. reflexivity.
+Qed.
+
+(** ** the same for every option set (GoCommand included): the text is found [sh] bytes before
+    [Pos], where [sh] is the length of the GO separator consumed after the statement (0 without
+    the option); [Line(Pos)] never panics and is the line of the byte at [Pos]. *)
+Definition TextAtShift (inp : bytes) (sh : Z) (st : Stmt) : Prop :=
+  slice inp (Pos st - sh) (Pos st - sh + zlen (Text st)) = Ok (Text st).
+
+Lemma losslessG_positions o d off rest ss :
+  LosslessG o d off rest ss -> forall pre, zlen pre = off ->
+  Forall (fun st => exists sh, 0 <= sh /\ (GoCommand o = false -> sh = 0) /\
+                    TextAtShift (pre ++ rest) sh st /\ 0 <= Pos st <= zlen (pre ++ rest)) ss.
+Proof.
+  induction 1 as [d off g d' HG|d off g d' raw go rest st ss HG HR Hne Hgo HP HL IH]; intros pre Hpre.
+  - constructor.
+  - destruct HR as (sp & dl & Hraw & _ & _).
+    specialize (IH (pre ++ g ++ raw ++ go) ltac:(rewrite !zlen_app; lia)).
+    pose proof (zlen_nonneg g). pose proof (zlen_nonneg go). pose proof (zlen_nonneg raw).
+    pose proof (zlen_nonneg rest). pose proof (zlen_nonneg pre).
+    constructor.
+    + exists (zlen go). split; [assumption|]. split.
+      { intros Hf. destruct Hgo as [->|Hgo]; [reflexivity|congruence]. }
+      split.
+      * unfold TextAtShift. rewrite HP, Hraw.
+        replace (pre ++ g ++ (Text st ++ sp ++ dl) ++ go ++ rest)
+          with ((pre ++ g) ++ Text st ++ (sp ++ dl ++ go ++ rest)) by (rewrite <- !app_assoc; reflexivity).
+        replace (off + zlen g + zlen go - zlen go) with (zlen (pre ++ g)) by (rewrite zlen_app; lia).
+        apply slice_mid.
+      * rewrite HP, !zlen_app. lia.
+    + replace (pre ++ g ++ raw ++ go ++ rest) with ((pre ++ g ++ raw ++ go) ++ rest)
+        by (rewrite <- !app_assoc; reflexivity).
+      exact IH.
+Qed.
+
+Lemma Line_bounds inp p : 0 <= p <= zlen inp -> Line inp p = Ok (line_of inp p).
+Proof.
+  intros H. unfold Line, slice_to.
+  destruct (p <? 0) eqn:E1; [bnorm; lia|]. destruct (zlen inp <? p) eqn:E2; [bnorm; lia|].
   simpl. unfold line_of. rewrite line_walk_count. reflexivity.
 Qed.
 
@@ -1294,6 +1576,13 @@ Proof.
   inversion H; simpl. unfold zlen. rewrite skipn_length. lia.
 Qed.
 
+Lemma skipGoCount_nf f s : (1 < f)%nat -> rem s + 1 < Z.of_nat f -> skipGoCount f s <> OutOfFuel.
+Proof.
+  unfold skipGoCount. intros Hf Hr H. nf_bind H; [apply pick_nf in H; auto|]. destruct (rune_is a 32); [|discriminate].
+  cbv zeta in H. nf_bind H; [apply pick_nf in H; auto|]. nf_bind H; [eapply to_eol_loop_nf; eauto|].
+  nf_bind H; [apply slice_nf in H; auto|]. destruct (atoi_ok _); discriminate.
+Qed.
+
 Section NestedNF.
 Variable o : opts.
 Variable nested : scanner -> res (scanner * option Stmt).
@@ -1305,7 +1594,6 @@ Hypothesis nested_prog : forall b b' st, pos b = 0 -> delim b <> [] -> nested b 
   zlen (input b') < zlen (input b).
 Hypothesis nested_nf : forall b, pos b = 0 -> delim b <> [] -> zlen (input b) + 2 <= Z.of_nat fn ->
   nested b <> OutOfFuel.
-Hypothesis noGo : GoCommand o = false.
 
 Lemma atomic_loop_nf f : forall s body, pos body = 0 -> delim body <> [] ->
   zlen (input body) < Z.of_nat f -> zlen (input body) + 2 <= Z.of_nat fn ->
@@ -1413,7 +1701,25 @@ Proof.
   { destruct ((pos s =? 1) && (zlen S_DELIMITER <? zlen (input s))) eqn:E; [|discriminate]. bnorm.
     change (zlen S_DELIMITER) with 9 in *.
     nf_bind H; [|discriminate]. eapply delimCmd_nf; [| |exact H]; unfold rem in *; simpl; lia. }
-  clear Ha. rewrite noGo in H. simpl in H.
+  clear Ha. nf_bind H.
+  { destruct (GoCommand o && N.eqb c 10); [|discriminate]. nf_bind H; [apply slice_from_not_fuel in H; auto|discriminate]. }
+  rename a into go1. clear Ha. nf_bind H.
+  { destruct go1; [discriminate|]. destruct (GoCommand o); [|discriminate]. nf_bind H.
+    - destruct (pos s =? 1); [discriminate|]. destruct (1 <? pos s); [|discriminate].
+      nf_bind H; [apply index_nf in H; auto|discriminate].
+    - destruct a; [|discriminate]. nf_bind H; [apply slice_from_not_fuel in H; auto|discriminate]. }
+  rename a into go2. clear Ha. destruct go2.
+  { nf_bind H.
+    { destruct go1; [|discriminate]. nf_bind H; [apply next_nf in H; auto|discriminate]. }
+    rename a into s1. assert (rem s1 <= rem s) as Hr1.
+    { destruct go1; [|injection Ha as <-; lia]. inv_bind_as Ha rs1 Hrs1. injection Ha as <-.
+      destruct rs1 as [r1 s1']. simpl. exact (adv_rem _ _ (next_adv _ _ _ Hrs1)). }
+    clear Ha. nf_bind H; [apply slice_to_nf in H; auto|]. rename a into text. clear Ha.
+    nf_bind H; [apply next_nf in H; auto|]. destruct a as [r2 s2]. pose proof (adv_rem _ _ (next_adv _ _ _ Ha)) as Hr2.
+    nf_bind H; [|discriminate]. simpl in H. destruct r2 as [c2|].
+    - pose proof (next_rem _ _ _ Ha) as Q1. pose proof (next_some_rem _ _ _ Ha) as Q2.
+      eapply skipGoCount_nf; [| |exact H]; lia.
+    - pose proof (next_none _ _ Ha) as [-> _]. unfold skipGoCount, pick in H. rewrite Ha in H. simpl in H. discriminate. }
   nf_bind H.
   { destruct (depth =? 0); [|discriminate]. nf_bind H; [apply slice_from_not_fuel in H; auto|discriminate]. }
   destruct a. { nf_bind H; [apply slice_to_nf in H; auto|discriminate]. }
@@ -1459,7 +1765,7 @@ Lemma stmt_loop_nf lf : forall s d op,
 Proof.
   induction lf as [|lf IH]; intros s d op Hns Hd Hlf Hr Hn H; simpl in H; [lia|].
   nf_bind H; [eapply stmt_iter_nf; [| |exact H]; lia|].
-  pose proof (stmt_iter_spec o nested nested_mono noGo _ _ _ _ _ Ha Hns Hd) as Hit.
+  pose proof (stmt_iter_spec o nested nested_mono _ _ _ _ _ Ha Hns Hd) as Hit.
   destruct a as [s1 d1 o1|s1 text|s1].
   - pose proof (stmt_iter_continue_rem _ _ _ _ _ _ _ Ha) as Hr1.
     destruct Hit as [[A Hlt]|[(S1 & S2 & S3 & S4 & S5) [Hp0 Hlen]]].
@@ -1472,20 +1778,20 @@ End NestedNF.
 
 Section StmtNF.
 Variable o : opts.
-Hypothesis noGo : GoCommand o = false.
 
 Lemma stmt_prog f b b' st : pos b = 0 -> delim b <> [] -> stmt o f b = Ok (b', Some st) ->
   zlen (input b') < zlen (input b).
 Proof.
-  intros Hp Hd H. destruct (stmt_spec o noGo _ _ _ _ H Hp Hd) as (_ & _ & _ & g & raw & Hin & _ & _ & Hne & _).
-  rewrite Hin, !zlen_app. pose proof (zlen_nonneg g).
-  destruct raw; [congruence|]. rewrite zlen_cons. pose proof (zlen_nonneg raw). lia.
+  intros Hp Hd H. destruct (stmt_spec o _ _ _ _ H Hp Hd) as (_ & _ & _ & g & raw & go & Hin & _ & _ & Hne & _).
+  rewrite Hin, !zlen_app. pose proof (zlen_nonneg g). pose proof (zlen_nonneg raw). pose proof (zlen_nonneg go).
+  assert (zlen (raw ++ go) <> 0) as Hnz by (intros Hz; apply zlen_zero in Hz; congruence).
+  rewrite zlen_app in Hnz. lia.
 Qed.
 Lemma stmt_mono f b b' r : pos b = 0 -> delim b <> [] -> stmt o f b = Ok (b', r) ->
   total b <= total b' /\ pos b' = 0 /\ delim b' <> [] /\
   (forall st, r = Some st -> total b + zlen (Text st) <= total b').
 Proof.
-  intros Hp Hd H. eapply (StmtResult_mono o noGo); [eapply (stmt_spec o noGo); eauto|reflexivity|reflexivity].
+  intros Hp Hd H. eapply (StmtResult_mono o); [eapply (stmt_spec o); eauto|reflexivity|reflexivity].
 Qed.
 
 Lemma stmt_nf f : forall s, pos s = 0 -> delim s <> [] -> zlen (input s) + 2 <= Z.of_nat f ->
@@ -1497,7 +1803,7 @@ Proof.
   assert (zlen (trim_left_space (input s)) <= zlen (input s)) as Hle.
   { rewrite Hsp at 2. rewrite zlen_app. pose proof (zlen_nonneg sp). lia. }
   pose proof (zlen_nonneg (trim_left_space (input s))) as Hnn.
-  eapply (stmt_loop_nf o (stmt o f) f); [| | |exact noGo| | | | | |exact H].
+  eapply (stmt_loop_nf o (stmt o f) f); [| | | | | | | |exact H].
   - intros b b' r. apply stmt_mono.
   - intros b b' st. apply stmt_prog.
   - intros b Hb1 Hb2 Hb3. apply IH; auto.
@@ -1793,7 +2099,6 @@ Variable o : opts.
 Variable nested : scanner -> res (scanner * option Stmt).
 Hypothesis nested_safe : forall b, wf b -> pos b = 0 -> delim b <> [] ->
   safe (nested b) (fun r => wf (fst r) /\ src (fst r) = src b /\ pos (fst r) = 0 /\ delim (fst r) <> []).
-Hypothesis noGo : GoCommand o = false.
 
 Definition same (s s' : scanner) : Prop := wf s' /\ src s' = src s /\ input s' = input s /\ pos s <= pos s'.
 
@@ -1912,7 +2217,6 @@ End NestedSafe.
 
 Section NestedSafeTC.
 Variable o : opts.
-Hypothesis noGo : GoCommand o = false.
 Variable nested : scanner -> res (scanner * option Stmt).
 Hypothesis nested_safe : forall b, wf b -> pos b = 0 -> delim b <> [] ->
   safe (nested b) (fun r => wf (fst r) /\ src (fst r) = src b /\ pos (fst r) = 0 /\ delim (fst r) <> []).
@@ -1945,16 +2249,25 @@ Lemma skipBeginTryCatch_safe f s : wf s -> 1 <= pos s ->
   safe (skipBeginTryCatch nested f s) (fun r => same s (fst r)).
 Proof.
   intros W Hp. unfold skipBeginTryCatch.
-  apply (block_safe o nested nested_safe noGo re_begin_try (trycatch_loop nested) false EMissingBeginTry); auto.
+  apply (block_safe nested nested_safe re_begin_try (trycatch_loop nested) false EMissingBeginTry); auto.
   - intros t n E. split; [eapply re_begin_word_pos; exact E|eapply re_begin_word_len; exact E].
   - intros. apply trycatch_loop_safe; auto.
 Qed.
 End NestedSafeTC.
 
+Lemma skipGoCount_safe f s : wf s -> safe (skipGoCount f s) (fun s' => wf s' /\ src s' = src s /\ input s' = input s).
+Proof.
+  intros W. unfold skipGoCount. destruct (pick_safe s W) as (r & Hr). rewrite Hr. cbn [bind].
+  destruct (rune_is r 32); [|simpl; auto]. cbv zeta. cbn [bind].
+  eapply safe_bind; [apply to_eol_loop_safe; exact W|]. intros s1 _ (W1 & S1 & I1 & P1).
+  pose proof W as (V1 & _). pose proof W1 as (U1 & _).
+  eapply safe_bind; [apply slice_safe; lia|]. intros raw _ _.
+  destruct (atoi_ok _); simpl; auto.
+Qed.
+
 Section IterSafe.
 Variable o : opts.
 Variable nested : scanner -> res (scanner * option Stmt).
-Hypothesis noGo : GoCommand o = false.
 
 (** how [depth] / [openingPos] evolve over one iteration *)
 Lemma stmt_iter_depth f s0 depth opos s1 d1 o1 :
@@ -2027,7 +2340,29 @@ Proof.
     intros s1 _ (W1 & S1 & [P1|E1]); [|subst s1]; simpl.
     - split; [apply wf_skipSpaces; auto|simpl in S1; congruence].
     - split; [apply wf_skipSpaces_id; [exact W8|simpl; congruence]|congruence]. }
-  clear HD. rewrite noGo. cbn [andb bind].
+  clear HD.
+  eapply safe_bind with (P := fun _ => True).
+  { destruct (GoCommand o && N.eqb c 10); [|exact I]. eapply safe_bind; [apply slice_from_safe; lia|]. intros; exact I. }
+  intros go1 _ _.
+  eapply safe_bind with (P := fun _ => True).
+  { destruct go1; [exact I|]. destruct (GoCommand o); [|exact I].
+    eapply safe_bind with (P := fun _ => True).
+    - destruct (pos s =? 1); [exact I|]. destruct (1 <? pos s) eqn:E1; [|exact I]. bnorm.
+      eapply safe_bind; [apply index_safe; lia|]. intros; exact I.
+    - intros als _ _. destruct als; [|exact I]. eapply safe_bind; [apply slice_from_safe; lia|]. intros; exact I. }
+  intros go2 _ _. destruct go2.
+  { eapply safe_bind with (P := fun s1 => wf s1 /\ src s1 = src s /\ input s1 = input s /\ 1 <= pos s1).
+    { destruct go1; [|simpl; repeat split; auto; lia].
+      destruct (next_safe s Ws) as (r1 & s1' & Hn1 & W1' & Hsrc1). rewrite Hn1. cbn [bind snd]. simpl.
+      pose proof (next_adv _ _ _ Hn1) as (G1 & _ & _ & G4).
+      split; [exact W1'|split; [exact Hsrc1|split; [exact G1|lia]]]. }
+    intros s1 _ (Ws1 & Ss1 & Is1 & Ps1). pose proof Ws1 as (U1 & U2 & U3).
+    eapply safe_bind; [apply slice_to_safe; lia|]. intros text _ _.
+    destruct (next_safe s1 Ws1) as (r2 & s2 & Hn2 & W2 & Hsrc2). rewrite Hn2. cbn [bind snd].
+    pose proof (next_adv _ _ _ Hn2) as (G2 & _).
+    eapply safe_bind; [apply (skipGoCount_safe f s2 W2)|]. intros s3 _ (W3' & S3 & I3).
+    simpl. split; [apply wf_skipSpaces_id; [exact W3'|]|congruence].
+    rewrite I3, G2, Is1, His. exact Hns. }
   eapply safe_bind with (P := fun b => b = true -> has_prefix (skipn (Z.to_nat (pos s - width s)) (input s)) (delim s) = true).
   { destruct (depth =? 0); [|simpl; discriminate].
     eapply safe_bind; [apply slice_from_safe; lia|]. intros tl _ ->. simpl. auto. }
@@ -2061,13 +2396,13 @@ Proof.
   eapply safe_bind with (P := fun _ => True).
   { destruct (_ && _); [|exact I]. eapply safe_bind; [apply slice_from_safe; lia|]. intros; exact I. }
   intros isAtomic _ _. destruct isAtomic.
-  { eapply safe_weaken; [apply (after_block_safe _ _ _ s); apply (skipBeginAtomic_safe o nested nested_safe noGo); auto; lia|].
+  { eapply safe_weaken; [apply (after_block_safe _ _ _ s); apply (skipBeginAtomic_safe nested nested_safe); auto; lia|].
     intros [s1 d1 o1|s1 t|s1] _ Hsame; simpl in *; try contradiction;
       destruct Hsame as (U1 & U2 & _); (split; [exact U1|congruence]). }
   eapply safe_bind with (P := fun _ => True).
   { destruct (_ && _); [|exact I]. eapply safe_bind; [apply slice_from_safe; lia|]. intros; exact I. }
   intros isTry _ _. destruct isTry.
-  { eapply safe_weaken; [apply (after_block_safe _ _ _ s); apply (skipBeginTryCatch_safe o noGo nested nested_safe nested_mono_s); auto; lia|].
+  { eapply safe_weaken; [apply (after_block_safe _ _ _ s); apply (skipBeginTryCatch_safe nested nested_safe nested_mono_s); auto; lia|].
     intros [s1 d1 o1|s1 t|s1] _ Hsame; simpl in *; try contradiction;
       destruct Hsame as (U1 & U2 & _); (split; [exact U1|congruence]). }
   eapply safe_bind with (P := fun _ => True).
@@ -2075,7 +2410,7 @@ Proof.
     - eapply safe_bind; [apply slice_from_safe; lia|]. intros; exact I.
     - destruct (1 <? pos s) eqn:E; [|exact I]. bnorm. eapply safe_bind; [apply slice_from_safe; lia|]. intros; exact I. }
   intros isBegin _ _. destruct isBegin; [|simpl; auto].
-  eapply safe_weaken; [apply (after_block_safe _ _ _ s); apply (skipBegin_safe o nested nested_safe noGo); auto; lia|].
+  eapply safe_weaken; [apply (after_block_safe _ _ _ s); apply (skipBegin_safe o nested nested_safe); auto; lia|].
   intros [s1 d1 o1|s1 t|s1] _ Hsame; simpl in *; try contradiction;
     destruct Hsame as (U1 & U2 & _); (split; [exact U1|congruence]).
 Qed.
@@ -2084,7 +2419,6 @@ End IterSafe.
 
 Section StmtSafe.
 Variable o : opts.
-Hypothesis noGo : GoCommand o = false.
 
 Definition SafeRes (s : scanner) (r : scanner * option Stmt) : Prop :=
   wf (fst r) /\ src (fst r) = src s /\ pos (fst r) = 0 /\ delim (fst r) <> [].
@@ -2102,11 +2436,11 @@ Lemma stmt_loop_safe lf : forall s d op,
 Proof.
   induction lf as [|lf IH]; intros s d op W Hns Hd Hd0 Hop; simpl; [exact I|].
   pose proof W as (W1 & W2 & W3).
-  eapply safe_bind; [apply (stmt_iter_safe o nested noGo nested_safe nested_mono lf s d op W Hns); intros; lia|].
+  eapply safe_bind; [apply (stmt_iter_safe o nested nested_safe nested_mono lf s d op W Hns); intros; lia|].
   intros st Hst (Wst & Sst).
-  pose proof (stmt_iter_spec o nested nested_mono noGo _ _ _ _ _ Hst Hns Hd) as Hit.
+  pose proof (stmt_iter_spec o nested nested_mono _ _ _ _ _ Hst Hns Hd) as Hit.
   destruct st as [s1 d1 o1|s1 text|s1]; simpl in Wst, Sst.
-  - pose proof (stmt_iter_depth o nested noGo _ _ _ _ _ _ _ Hst) as Hdep.
+  - pose proof (stmt_iter_depth o nested _ _ _ _ _ _ _ Hst) as Hdep.
     assert (input s1 = input s /\ delim s1 = delim s /\ pos s < pos s1 \/
             starts_space (input s1) = false /\ delim s1 <> [] /\ pos s1 = 0 /\ pos s = 0) as Hcase.
     { destruct Hit as [[(A1 & A2 & _ & _) Hlt]|[(S1 & S2 & S3 & _) [Hp0 _]]]; [left; auto|right; auto]. }
@@ -2134,7 +2468,7 @@ Proof.
   destruct (trim_left_decomp (input s)) as (sp & Hsp & Hsp2 & Hsp3).
   eapply safe_weaken.
   - apply (stmt_loop_safe (stmt o f)).
-    + intros b b' r. apply (stmt_mono o noGo).
+    + intros b b' r. apply (stmt_mono o).
     + exact IH.
     + apply wf_skipSpaces; auto.
     + exact Hsp3.
